@@ -87,8 +87,6 @@ def oracle(sc):
 
 
 def classify(case):
-    if case.get('what') == 'delivered-after-cancel' and case.get('kind') in ('KChanReq', 'KChanResp') and case.get('sending_open'):
-        return 'KF-C09-channel-cancel-inflight'
     return None
 
 
@@ -143,26 +141,7 @@ def replay(obj):
     return bool(crashed) or any(oracle(sc) for sc in runs)
 
 
-def known_channel_cancel_inflight():
-    """requester channel with an open local publisher: cancel(), then an element still in flight is delivered"""
-    sc = Scenario(random.Random(7), role='client', lenreq=False, with_close=False, steps=0)
-    sc.desc = {'fixed': 'channel cancel with an element in flight'}
-    try:
-        sc.do_channel(hp=True, hs=True)
-        obj = sc.mine[0]['obj']
-        sid = sc.mine[0]['sid']
-        sc.rec.label('cancel', 0)
-        sc.rec.act(lambda: obj.cancel())
-        sc.rec.settle()
-        n0 = len(sc.rec.log)
-        sc._inject({'t': 'Payload', 'sid': sid, 'ign': False, 'follows': False, 'complete': False, 'next': True,
-                    'md': b'', 'd': b'inflight'})
-        return any(x[0] == 'eff' and x[1] == 'cb' for x in sc.rec.log[n0:])
-    finally:
-        sc.rec.finish()
-
-
-KNOWN = {'KF-C09-channel-cancel-inflight': known_channel_cancel_inflight}
+KNOWN = {}
 
 
 # ---------------------------------------------------------------------------------------------
